@@ -60,12 +60,12 @@ func writeManifest(verifDir string) error {
 			continue
 		}
 		checks = append(checks, map[string]any{
-			"property_id":   id,
-			"quick_cmd":     "./run.sh " + id + " quick",
-			"thorough_cmd":  "./run.sh " + id + " thorough",
-			"evidence_file": "/verif/evidence/" + id + ".json",
+			"property_id":         id,
+			"quick_cmd":           "./run.sh " + id + " quick",
+			"thorough_cmd":        "./run.sh " + id + " thorough",
+			"evidence_file":       "/verif/evidence/" + id + ".json",
 			"replay_cmd_template": "./bin/autogverif explain -f {path}",
-			"engine":        "autogverif",
+			"engine":              "autogverif",
 			"level_claimed": map[string]any{
 				"category":   "other",
 				"text":       p.Kind + ": " + p.Explanation,
